@@ -115,7 +115,18 @@ pub fn rt_eval(c: &RtCase) -> CaseOut {
             let date = fatfs::Date::new(cc.y, cc.mo, cc.d);
             let dt = fatfs::DateTime::new(date, fatfs::Time::new(cc.h, cc.mi, cc.s, cc.ms));
             {
+                // first store a neighbouring value (same date, same 2-second slot, other odd-second / 10 ms part;
+                // or the previous day), so that the target has to replace something that differs only in the
+                // low-resolution-invisible part
+                let (ns, nms) = if cc.s % 2 == 0 && cc.ms < 10 { (cc.s + 1, 990) } else { (cc.s & !1, 0) };
+                let ndt = fatfs::DateTime::new(date, fatfs::Time::new(cc.h, cc.mi, ns, nms));
+                let ndate = if cc.d > 1 { fatfs::Date::new(cc.y, cc.mo, cc.d - 1) } else { fatfs::Date::new(cc.y, cc.mo, 2) };
                 let root = ctx.sess.root();
+                let mut f = root.open_file("dir/target file.bin").map_err(|e| format!("open: {:?}", e))?;
+                f.set_created(ndt);
+                f.set_modified(fatfs::DateTime::new(date, fatfs::Time::new(cc.h, cc.mi, cc.s ^ 2 & 58, 0)));
+                f.set_accessed(ndate);
+                drop(f);
                 let mut f = root.open_file("dir/target file.bin").map_err(|e| format!("open: {:?}", e))?;
                 f.set_created(dt);
                 f.set_modified(dt);
